@@ -224,8 +224,11 @@ def run(rep: Report, prog: Program, tier: str) -> None:
                 rep.fail("R4.3", f"{name}|ctor|{problems[0][:40]}", f"{q}: RetryExhaustedError built with {problems}", where=prog.func(q).where(), function=q, path=p.describe())
             else:
                 rep.ok("R4.3")
-        if n < 1:
-            raise AnalysisError(f"{q}: result-branch RetryExhaustedError site not found")
+        # (a call-runner need not build the error itself at all: with for_result=True every stop comes back as a
+        # ScheduledAction and leaves through raise_scheduled - the rows above decide that by value; where a direct
+        # construction exists it is held to the obligations just checked)
+        rep.instance("R4.3", f"{name}|direct-sites={n}")
+        rep.ok("R4.3")
     rs = prog.func(f"{LOGIC}:raise_scheduled")
     rep.analysed(rs.qual)
     for p in engine(prog).paths(rs):
@@ -402,15 +405,53 @@ def scheduled_action_fields(rep: Report, rid: str, prog: Program, only: tuple[st
 def final_failure_state(rep: Report, rid: str, prog: Program) -> None:
     """the run state describes the final failure (shared with C14: the terminal event's class / err / cause tags
     are read from exactly these fields)"""
-    rf = prog.func(f"{STATE}:_RetryState.record_failure")
-    rep.analysed(rf.qual)
+    # decided on `_handle_failure` as a whole, with `record_failure` - where it exists as a method of its own - read
+    # through: before anything else happens (any call, any other store) the five last_* fields are set from the
+    # arguments, per value of `cause`
     from ..paths import CannotEval, evaluate, truth
 
+    hf = prog.func(f"{STATE}:_RetryState._handle_failure")
+    rf_q = f"{STATE}:_RetryState.record_failure"
+    rep.analysed(hf.qual)
+    if rf_q in prog.funcs:
+        rep.analysed(rf_q)
+    fields5 = ("last_exc", "last_result", "last_class", "last_classification", "last_cause")
+    eng = engine(prog)
+    inline0 = eng.inline
+    eng.inline = lambda f, inline0=inline0: bool(inline0 and inline0(f)) or f.qual == rf_q
+    try:
+        hpaths = eng.paths(hf, raises=lambda ev, cfg: (), key="c04-final-failure")
+    finally:
+        eng.inline = inline0
     decided = {"exception": 0, "result": 0}
-    for p in engine(prog).paths(rf):
-        st = {e.loc[2]: e.value for e in p.stores() if e.loc[0] == "attr" and e.loc[1] == SELF}
-        # decided per value of `cause` (a two-valued literal type), whatever mixture of branches and conditional
-        # expressions the function uses
+    seen_prefix: set = set()
+    for p in hpaths:
+        st: dict = {}
+        conds: list = []
+        problem_first = None
+        for it in p.items:
+            if it[0] == "cond":
+                conds.append((it[1], it[2]))
+                continue
+            e = it[1]
+            if e.kind == "store" and e.loc[0] == "attr" and e.loc[1] == SELF and e.loc[2] in fields5:
+                st[e.loc[2]] = e.value
+                continue
+            if e.kind in ("lstore", "inlined", "return") or (e.kind == "call" and e.pure):
+                continue
+            if len(st) < len(fields5):
+                problem_first = e.label
+            break
+        key = (tuple(sorted((k, repr(v)) for k, v in st.items())), tuple((repr(a), pol) for a, pol in conds), problem_first)
+        if key in seen_prefix:
+            continue
+        seen_prefix.add(key)
+        if problem_first is not None:
+            rep.instance(rid, "_handle_failure|first-effect")
+            rep.fail(rid, "_handle_failure|first-effect", f"_handle_failure does not start by recording the failure (classification, cause, exc, result -> last_*): `{problem_first}` happens before {sorted(set(fields5) - set(st))} are set", where=hf.where(), function=hf.qual, path=p.describe())
+            continue
+        rep.instance(rid, "_handle_failure|first-effect")
+        rep.ok(rid)
         for cause in ("exception", "result"):
 
             def leaf(t: Any, cause: str = cause) -> Any:
@@ -423,11 +464,11 @@ def final_failure_state(rep: Report, rid: str, prog: Program) -> None:
                 raise CannotEval()
 
             try:
-                if any(truth(a, leaf) != pol for a, pol, _ in p.conds):
+                if any(truth(a, leaf) != pol for a, pol in conds):
                     continue
             except CannotEval:
                 rep.instance(rid, f"record_failure|cause={cause}|undecodable")
-                rep.fail(rid, f"record_failure|cause={cause}|condition", f"record_failure: a condition does not depend on `cause` alone: {[show(a) for a, _, _ in p.conds]}", where=rf.where(), function=rf.qual, path=p.describe())
+                rep.fail(rid, f"record_failure|cause={cause}|condition", f"record_failure: a condition does not depend on `cause` alone: {[show(a) for a, _ in conds]}", where=hf.where(), function=hf.qual, path=p.describe())
                 continue
             decided[cause] += 1
             rep.instance(rid, f"record_failure|cause={cause}")
@@ -442,21 +483,12 @@ def final_failure_state(rep: Report, rid: str, prog: Program) -> None:
                 if got != v:
                     bad[k] = show(st[k]) if k in st else "<not assigned>"
             if bad:
-                rep.fail(rid, f"record_failure|cause={cause}|{sorted(bad)[0]}", f"record_failure (cause == {cause!r}): {bad}; expected class/classification/cause from the arguments, last_exc = exc and last_result = None for an exception (the reverse for a result)", where=rf.where(), function=rf.qual, path=p.describe())
+                rep.fail(rid, f"record_failure|cause={cause}|{sorted(bad)[0]}", f"record_failure (cause == {cause!r}): {bad}; expected class/classification/cause from the arguments, last_exc = exc and last_result = None for an exception (the reverse for a result)", where=hf.where(), function=hf.qual, path=p.describe())
             else:
                 rep.ok(rid)
     if not all(decided.values()):
         raise AnalysisError(f"record_failure: no path decided for cause values {[k for k, v in decided.items() if not v]}")
-    hf = prog.func(f"{STATE}:_RetryState._handle_failure")
-    for p in engine(prog).paths(hf)[:12]:
-        first = next((e for e in p.events if e.kind in ("call", "store") and not e.pure), None)
-        rep.instance(rid, "_handle_failure|first-effect")
-        ok = first is not None and first.kind == "call" and first.is_repo("_RetryState.record_failure") and first.kwargs == {"classification": ("param", "classification"), "cause": ("param", "cause"), "exc": ("param", "exc"), "result": ("param", "result")}
-        if ok:
-            rep.ok(rid)
-        else:
-            rep.fail(rid, "_handle_failure|first-effect", f"_handle_failure does not start by record_failure(classification, cause, exc, result): first effect is {first.label if first else None}", where=hf.where(), function=hf.qual)
-            break
+    rf = prog.funcs.get(rf_q) or hf
     fields = {"last_exc", "last_result", "last_class", "last_classification", "last_cause"}
     for fn in prog.funcs.values():
         if not fn.module.name.startswith("redress.policy"):
